@@ -17,11 +17,24 @@ def gen_noop(tier, rng):
 def oracle_noop(req, out):
     return None if out == "identical" else "a mutating operation that changes nothing did not write back the identical file: " + out[:100]
 
+def gen_par_blocks(tier, rng):
+    """the file as the commands read it: through the parallel parser (every worker count for short texts in the thorough tier)"""
+    import props.c07 as c07
+    return [r for r in c07.gen_par("quick" if tier == "quick" else tier, rng)][: (6000 if tier == "quick" else 600000)]
+
+def oracle_par_blocks(req, out):
+    if out.startswith("same "):
+        return None
+    return "the blocks of the parallel parser do not reproduce the text as the serial parser's do: " + out[:140]
+
 def suites():
     return [
         Suite("blocks", gen_blocks, oracle=blocks_oracle,
               rule="conforming documents (mixed LF/CRLF, blank runs, no final newline, invalid UTF-8 in summaries) + the C06 byte streams; non-trivial = at least one block",
               nontrivial=lambda r, o: not o.startswith("0") and not o.startswith("crash")),
+        Suite("parallel-blocks", gen_par_blocks, oracle=oracle_par_blocks,
+              rule="conforming, faulted, mutated and many-record texts (LF/CRLF) x worker counts x forced arrival orders through ParallelBatchParser: its blocks (texts, line endings, line numbers) must be those of the serial parser, which the suite `blocks` shows to reproduce the text",
+              nontrivial=lambda r, o: o.startswith("same ")),
         Suite("noop-reconcile", gen_noop, oracle=oracle_noop, model=False,
               rule="a reconciler applied with no operation to every record of a conforming document must serialise the identical text",
               nontrivial=lambda r, o: o == "identical"),
